@@ -35,6 +35,62 @@ Proof. exact sort_types_stable_id. Qed.
 Theorem c08_func_order_canonical : forall l, StronglySorted func_before (sort_funcs l).
 Proof. exact sort_funcs_sorted. Qed.
 
+
+
+
+(* (5) the iteration order of the type arena, of the function arena, of the used-locals set and of the name vectors cannot
+   reach the output; type keys are pairwise distinct for parsed modules (on arbitrary arenas ties are possible: witness) *)
+From WV Require Import Proofs.Names Proofs.SortKeys.
+Theorem c08_types_order_free_for_parsed_modules :
+  forall (cf : config) (ver : nstr) (w : wmod) (s : pst) (x : x2i) (l' : list (N * mtype)),
+         parseM cf ver w = POk s ->
+         Permutation (emitted_types (ps_m s)) l' -> emit_types (ps_m s) x = emit_types_from l' x.
+Proof. exact parsed_emit_types_order_free. Qed.
+
+Theorem c08_functions_iteration_order_free :
+  forall (ps1 ps2 : list (N * mfunc)) (l1 : list (list (N * N * mlocalfunc))),
+         Permutation ps1 ps2 ->
+         NoDup (map fst ps1) ->
+         rmapM func_entry ps1 = Ok l1 ->
+         exists l2 : list (list (N * N * mlocalfunc)),
+           rmapM func_entry ps2 = Ok l2 /\ Order.sort_funcs (concat l1) = Order.sort_funcs (concat l2).
+Proof. exact used_funcs_iteration_order_free. Qed.
+
+Theorem c08_locals_perm_invariant :
+  forall (ty : N -> valty) (args u1 u2 : list N),
+         Permutation u1 u2 -> emit_locals ty args u1 = emit_locals ty args u2.
+Proof. exact emit_locals_perm_invariant. Qed.
+
+Theorem c08_names_perm_invariant :
+  forall (A : Type) (x : x2i) (s : space) (getn : A -> option nstr) (l1 l2 : list (N * A))
+           (nm : namemap),
+         Permutation l1 l2 ->
+         NoDup (map fst l1) ->
+         NoDup (map snd (space_map x s)) -> named x s getn l1 = Ok nm -> named x s getn l2 = Ok nm.
+Proof. exact named_perm_invariant. Qed.
+
+Theorem c08_type_ties_possible_on_arbitrary_arenas :
+  exists l1 l2 : list (N * mtype), Permutation l1 l2 /\ sort_types l1 <> sort_types l2.
+Proof. exact sort_types_perm_invariant_refuted. Qed.
+
+
+(* (4) the sort calls of the SOURCE (regenerated, Gen/SortKeys.v) are the ones the models implement: used locals by id
+   (natural order of LocalId), local functions by (Reverse(size), id), types by their (params, results) order, every
+   name-section vector by index, function ranges by id, the DWARF tables by start / address.  A changed key or a dropped
+   sort changes the regenerated text and breaks this theorem. *)
+Require Import Coq.Strings.String.
+From WV Require Import Gen.SortKeys.
+Theorem c08_source_sort_keys :
+  sort_call SS_used_locals = "sort_unstable()"%string /\
+  sort_call SS_local_functions = "sort_by_key(|(id,_,size)|(cmp::Reverse( *size),*id))"%string /\
+  sort_call SS_types = "sort_by_key(|&(_,ty)|ty)"%string /\
+  sort_call SS_function_ranges = "sort_by_key(|i|i.0)"%string /\
+  sort_call SS_dwarf_ranges = "sort_by_key(|i|i.0.start)"%string /\
+  sort_call SS_dwarf_instrs = "sort_by_key(|i|i.0)"%string /\
+  Forall (fun p => snd p = "sort_by_key(|p|p.0)"%string) name_section_sorts /\
+  map fst name_section_sorts = ["funcs"; "locals"; "types"; "tables"; "memories"; "globals"; "elements"; "data"; "map"]%string.
+Proof. repeat split; try reflexivity. repeat constructor. Qed.
+
 Print Assumptions c08_emit_keeps_module.
 Print Assumptions c08_repeat.
 Print Assumptions c08_locals_order_free.
@@ -43,3 +99,9 @@ Print Assumptions c08_func_order_free.
 Print Assumptions c08_sorted_locals_stay.
 Print Assumptions c08_sorted_types_stay.
 Print Assumptions c08_func_order_canonical.
+Print Assumptions c08_source_sort_keys.
+Print Assumptions c08_types_order_free_for_parsed_modules.
+Print Assumptions c08_functions_iteration_order_free.
+Print Assumptions c08_locals_perm_invariant.
+Print Assumptions c08_names_perm_invariant.
+Print Assumptions c08_type_ties_possible_on_arbitrary_arenas.
